@@ -42,6 +42,7 @@ type Query {
   member: Node
   accountVal: Account
   accountBot: Account
+  firstN(n: Int): [Item]
 }
 
 type Account {
@@ -245,6 +246,15 @@ func (q *Query) AccountVal() Person { return Person{ID: "p3", Name: "val"} }
 // AccountBot returns a *Robot as an Account.
 func (q *Query) AccountBot() *Robot { return &Robot{ID: "r1", Name: "rob"} }
 
+// FirstN returns the first n items (n may exceed what there is: then all, cycled up to n <= 6).
+func (q *Query) FirstN(n int32) []*Item {
+	var out []*Item
+	for i := 0; i < int(n) && i < 6 && len(q.Items) > 0; i++ {
+		out = append(out, q.Items[i%len(q.Items)])
+	}
+	return out
+}
+
 // Account returns a Person as an Account.
 func (q *Query) Account() *Person { return &Person{ID: "p1", Name: "pat", Since: 2001} }
 
@@ -398,6 +408,7 @@ var Requests = []struct {
 	{`{ add(a: 1, b: 2) }`, nil},
 	{`{ box(in: {d: [1, 2], name: "n"}) }`, nil},
 	{`{ ghost name }`, nil},
+	{`{ firstN(n: 3) { id } a: firstN(n: 0) { id } }`, nil},
 	{`{ account { id name } }`, nil},
 	{`{ member { __typename id ... on Member { name since } } }`, nil},
 	{`{ account { __typename name } member { __typename ... on Member { since } } }`, nil},
